@@ -144,3 +144,30 @@ def audit(pid):
     else:
         res["trusted_base"].append("axioms: none (every theorem is closed under the global context)")
     return res
+
+
+def coqchk(pid, timeout=3000):
+    """Thorough tier: re-check the compiled Props files of one property (and everything they depend on) with the
+    independent checker coqchk; -o prints the axioms the loaded libraries rely on."""
+    mods = ["GB." + rel[:-2].replace("/", ".") for rel in props_files(pid)]
+    try:
+        p = subprocess.run(["timeout", str(timeout), "coqchk", "-silent", "-o", "-Q", ".", "GB"] + mods,
+                           cwd=COQ, capture_output=True, text=True)
+    except Exception as e:  # noqa: BLE001
+        return {"ok": False, "error": str(e)}
+    out = p.stdout + p.stderr
+    m = re.search(r"\* Axioms:(.*?)\n\s*\n\* Constants/Inductives relying on type-in-type:(.*?)\n\s*\n"
+                  r"\* Constants/Inductives relying on unsafe \(co\)fixpoints:(.*?)\n\s*\n"
+                  r"\* Inductives whose positivity is assumed:(.*?)\n", out, flags=re.S)
+    res = {"ok": p.returncode == 0 and m is not None, "modules": mods, "returncode": p.returncode}
+    if m:
+        ax = [a.strip() for a in m.group(1).split("\n") if a.strip() and a.strip() != "<none>"]
+        res["axioms_of_loaded_libraries"] = ax
+        res["type_in_type"] = m.group(2).strip()
+        res["unsafe_fixpoints"] = m.group(3).strip()
+        res["assumed_positivity"] = m.group(4).strip()
+        if any(x != "<none>" for x in (res["type_in_type"], res["unsafe_fixpoints"], res["assumed_positivity"])):
+            res["ok"] = False
+    else:
+        res["tail"] = out[-1500:]
+    return res
